@@ -221,10 +221,37 @@ func TestVFC09Concurrent(t *testing.T) {
 		// The updaters always run to their end (the worker begins every step
 		// once one of them asked for it); then the worker ends; the readers end
 		// on the flag.
-		updWG.Wait()
-		workerWG.Wait()
-		stop.Store(true)
-		readWG.Wait()
+		allDone := make(chan struct{})
+		go func() {
+			updWG.Wait()
+			workerWG.Wait()
+			stop.Store(true)
+			readWG.Wait()
+			close(allDone)
+		}()
+		// A stall is "no update and no read completed for a minute", not "slow".
+		var progress atomic.Int64
+		watchStop := make(chan struct{})
+		go func() {
+			tk := time.NewTicker(100 * time.Millisecond)
+			defer tk.Stop()
+			for {
+				select {
+				case <-watchStop:
+					return
+				case <-tk.C:
+					progress.Store(int64(completed.Load() + readsDone.Load()))
+				}
+			}
+		}()
+		finished := vfkit.WaitProgress(allDone, &progress, 60*time.Second)
+		close(watchStop)
+		if !finished {
+			buf := make([]byte, 1<<20)
+			n := runtime.Stack(buf, true)
+			t.Fatalf("stall: no statistics update and no read completed for 60 s (deadlock between the updaters, the flush worker and the readers?)\n"+
+				"case: limit %dh, %d updaters x %d, %d hour steps\n%s", limitH, nUpd, perUpd, nSteps, buf[:n])
+		}
 
 		select {
 		case err := <-errs:
